@@ -69,7 +69,10 @@ def _run(q):
     return q
 
 
-def run_queries(qs, workers=14, deadline=None):
+DEFAULT_WORKERS = 14
+
+
+def run_queries(qs, workers=None, deadline=None):
     """deadline: absolute time.time() after which queries that have not started are skipped
     (status 'unknown', raw 'budget exhausted')"""
     def guarded(q):
@@ -77,7 +80,7 @@ def run_queries(qs, workers=14, deadline=None):
             q.status, q.model, q.secs, q.raw = "unknown", {}, 0.0, "time budget of this tier exhausted before the query was started"
             return q
         return _run(q)
-    with cf.ThreadPoolExecutor(max_workers=workers) as ex:
+    with cf.ThreadPoolExecutor(max_workers=workers or DEFAULT_WORKERS) as ex:
         return list(ex.map(guarded, qs))
 
 
@@ -100,6 +103,17 @@ def record(res, q, replay=None):
         return
     if q.status == "sat":
         out = replay(q) if replay else None
+        if out is not None and out[0] != "violated" and getattr(q, "robust", None):
+            # the solver's first model sits on a boundary where rounding hides the disagreement: ask again for a
+            # model in which the disagreement holds with the obligation's own margins, and replay that one
+            q2 = Query(q.name + " [robust model]", list(q.asserts) + list(q.robust), expect="unsat", mode=q.mode, timeout=q.timeout, meta=q.meta)
+            _run(q2)
+            q.secs += q2.secs
+            if q2.status == "sat":
+                q.model = q2.model
+                out2 = replay(q)
+                if out2 is not None and out2[0] == "violated":
+                    out = out2
         if out is None:
             res.inconclusive.append(dict(obligation=q.name, model={k: v for k, v in list(q.model.items())[:12]}, note="no replay available"))
             res.ob(q.name, eng, "undischarged", "counterexample candidate without native confirmation", q.secs, sample, q.nontrivial)
